@@ -200,7 +200,7 @@ def explain(ck: Check, s: sg.Schema, v: Any) -> Optional[List[int]]:
 
 # ---- the check ---------------------------------------------------------------------------------
 
-def run_opmode(ck: Check, prop_file: str, n_quick=(110, 40, 3), n_thorough=(1400, 2112, 6)) -> None:
+def run_opmode(ck: Check, prop_file: str, n_quick=(100, 36, 3), n_thorough=(1400, 2112, 6)) -> None:
     ck.assumptions.extend(ASSUME)
     ck.coverage["trusted_base"] = ["Coq 8.16.1 kernel + vm_compute", "tools/translate.py + tools/translate_opmode.py",
                                    "tools/t1_opmode.py", "tools/run_opmode.py + gcc + ctypes (x86-64)",
@@ -208,6 +208,8 @@ def run_opmode(ck: Check, prop_file: str, n_quick=(110, 40, 3), n_thorough=(1400
     ck.try_prove(prop_file, model_vo=("theories/OpMode.vo",))
 
     ns, nsingle, nv = n_quick if ck.quick else n_thorough
+    if os.environ.get("VERIF_C04_SIZES"):          # development aid: "schemas,single,values"
+        ns, nsingle, nv = (int(x) for x in os.environ["VERIF_C04_SIZES"].split(","))
     cases = load_corpus(ck.prop)
     n_corpus = len(cases)
     cases.extend(gen_cases(ck, ns, nsingle, nv))
